@@ -268,8 +268,20 @@ enum Op {
 #[derive(Clone, Debug, Default)]
 struct Authz { sigs: std::vec::Vec<(Sg, Cls)>, auths: std::vec::Vec<usize> }
 
-const FN_NAMES: [&str; 16] = ["act", "add_context_rule", "update_context_rule_name", "update_context_rule_valid_until",
-    "remove_context_rule", "add_signer", "remove_signer", "add_policy", "remove_policy", "foo", "bar", "execute", "set_threshold", "transfer", "multi", "deploy"];
+const FN_NAMES: [&str; 21] = ["act", "add_context_rule", "update_context_rule_name", "update_context_rule_valid_until",
+    "remove_context_rule", "add_signer", "remove_signer", "add_policy", "remove_policy", "foo", "bar", "execute", "set_threshold", "transfer", "multi", "deploy",
+    // names of the collaborators' own entry points (a context may name any function of any contract)
+    "can_enforce", "enforce", "verify", "__check_auth", "set_cfg"];
+/// Callees that ALIAS another party of the same check: the contract a context calls may itself be one of the policy
+/// contracts of the rule that is tried for it, the verifier of one of its signers, or a delegated signer's address
+/// (callee 0 is the account itself, callee 4 the real threshold policy).
+const CALLEE_POL0: usize = 6;   // callees[6 + p] = mock policy p, p = 0..2
+const CALLEE_SPEND: usize = 9;  // the real spending-limit policy
+const CALLEE_VER0: usize = 10;  // mock verifier 0
+const CALLEE_DEL1: usize = 11;  // the account behind Delegated 1
+const NCALLEES: usize = 12;
+/// the callee index under which policy p can itself be the target of a call
+fn policy_callee(p: usize) -> Option<usize> { match p { 0..=2 => Some(CALLEE_POL0 + p), REAL_THR => Some(4), REAL_SPEND => Some(CALLEE_SPEND), _ => None } }
 const RULE_NAMES: [&str; 4] = ["multisig", "ops", "treasury", "guardians"];
 const UNKNOWN: u64 = 999;
 /// index of the real simple-threshold policy among the policies (Model: real_thr)
@@ -308,13 +320,15 @@ impl World {
         let mut verifiers: std::vec::Vec<Address> = (0..2).map(|_| e.register(MockVerifier, (&lg,))).collect();
         verifiers.push(Address::generate(&e)); // verifier 2: no contract behind the address, every call of it traps
         let keys = (0..8u8).map(|i| Bytes::from_array(&e, &[0xA0 + i, i, 7, 7 + i])).collect();
-        let delegated = (0..8).map(|_| e.register(OkAccount, ())).collect();
+        let delegated: std::vec::Vec<Address> = (0..8).map(|_| e.register(OkAccount, ())).collect();
         let mut policies: std::vec::Vec<Address> = (0..REAL_THR).map(|_| e.register(MockPolicy, (&lg,))).collect();
         policies.push(e.register(LoggedThreshold, (&lg,)));
         policies.push(e.register(LoggedSpending, (&lg,)));
         let t1 = e.register(Target, ());
         let t2 = e.register(Target, ());
-        let callees = std::vec![Address::generate(&e) /* placeholder for the account */, t1, t2, Address::generate(&e), policies[REAL_THR].clone(), e.register(Deployer, ())];
+        let callees = std::vec![Address::generate(&e) /* placeholder for the account */, t1, t2, Address::generate(&e), policies[REAL_THR].clone(), e.register(Deployer, ()),
+                                policies[0].clone(), policies[1].clone(), policies[2].clone(), policies[REAL_SPEND].clone(), verifiers[0].clone(), delegated[1].clone()];
+        assert_eq!(callees.len(), NCALLEES);
         // real uploaded code, so that contracts can really be created from it: 0 = no constructor, 1 = constructor(admin)
         let wasms: std::vec::Vec<BytesN<32>> = ["/repo/examples/upgradeable/testdata/upgradeable_v2_example.wasm", "/repo/examples/upgradeable/testdata/upgradeable_v1_example.wasm"].iter()
             .map(|f| e.deployer().upload_contract_wasm(Bytes::from_slice(&e, &std::fs::read(f).expect("wasm test data")))).collect();
@@ -442,7 +456,11 @@ impl World {
         }
         v
     }
-    fn types() -> std::vec::Vec<Ct> { std::vec![Ct::Default, Ct::Call(0), Ct::Call(1), Ct::Call(2), Ct::Call(3), Ct::Call(4), Ct::Call(5), Ct::Create(0), Ct::Create(1)] }
+    fn types() -> std::vec::Vec<Ct> {
+        let mut v = std::vec![Ct::Default, Ct::Call(0), Ct::Call(1), Ct::Call(2), Ct::Call(3), Ct::Call(4), Ct::Call(5), Ct::Create(0), Ct::Create(1)];
+        v.extend((CALLEE_POL0..NCALLEES).map(Ct::Call));
+        v
+    }
     fn observe(&self) -> String {
         let now = self.e.ledger().sequence();
         match &self.acc {
@@ -924,14 +942,16 @@ impl<'a> Tr<'a> {
         match rng.below(10) { 0..=3 => None, 4 => Some(now), 5 => Some(now + 1), 6 => Some(now + 2), 7 => Some(now + 6), 8 => Some(now.saturating_sub(1)), _ => Some(now + rng.below(4) as u32) }
     }
     fn gen_type(&self, rng: &mut Rng) -> Ct {
-        match rng.below(20) { 0..=5 => Ct::Default, 6..=8 => Ct::Call(0), 9..=11 => Ct::Call(1), 12..=13 => Ct::Call(2), 14..=15 => Ct::Call(3), 16..=17 => Ct::Create(0), _ => Ct::Create(1) }
+        match rng.below(23) { 0..=5 => Ct::Default, 6..=8 => Ct::Call(0), 9..=11 => Ct::Call(1), 12..=13 => Ct::Call(2), 14..=15 => Ct::Call(3), 16..=17 => Ct::Create(0), 18..=19 => Ct::Create(1),
+                              // rules for calls of a contract that is itself a policy / verifier / signer of the account
+                              20 => Ct::Call(CALLEE_POL0), 21 => Ct::Call(CALLEE_POL0 + 1), _ => Ct::Call(*rng.pick(&[4usize, CALLEE_POL0 + 2, CALLEE_SPEND, CALLEE_VER0, CALLEE_DEL1])) }
     }
     fn gen_pd(&self, rng: &mut Rng, can: bool) -> Pd {
         let uni = self.universe();
         let k = rng.below(100);
         let t = if can { 38 } else { 72 };
         if k < t { Pd::True } else if k < t + if can { 20 } else { 8 } { Pd::False } else if k < t + if can { 24 } else { 12 } { Pd::Trap }
-        else { match rng.below(4) { 0 => Pd::Min(rng.below(4) as u32), 1 => Pd::Call(rng.below(4) as usize), 2 => Pd::NotCall(rng.below(4) as usize), _ => Pd::Has(*rng.pick(&uni)) } }
+        else { match rng.below(4) { 0 => Pd::Min(rng.below(4) as u32), 1 => Pd::Call(self.gen_callee(rng)), 2 => Pd::NotCall(self.gen_callee(rng)), _ => Pd::Has(*rng.pick(&uni)) } }
     }
     fn gen_mode(&self, rng: &mut Rng) -> Md {
         Md { install: !rng.chance(1, 10), uninstall: !rng.chance(1, 5), can: self.gen_pd(rng, true), enf: self.gen_pd(rng, false) }
@@ -970,7 +990,19 @@ impl<'a> Tr<'a> {
             }
         }
     }
+    fn gen_callee(&self, rng: &mut Rng) -> usize {
+        if rng.chance(1, 4) { *rng.pick(&[4usize, CALLEE_POL0, CALLEE_POL0 + 1, CALLEE_POL0 + 2, CALLEE_SPEND, CALLEE_VER0, CALLEE_DEL1]) } else { rng.below(4) as usize }
+    }
+    /// a call of a contract that is itself a party of the check: preferably one of the policy contracts of a stored rule
+    fn gen_party_ctx(&self, rng: &mut Rng) -> Cx {
+        let rules = self.w.rules();
+        let own: std::vec::Vec<usize> = rules.iter().flat_map(|r| r.policies.iter().filter_map(|p| policy_callee(World::idx(&self.w.policies, &p) as usize)).collect::<std::vec::Vec<_>>()).collect();
+        let a = if !own.is_empty() && rng.chance(2, 3) { *rng.pick(&own) } else { *rng.pick(&[4usize, CALLEE_POL0, CALLEE_POL0 + 1, CALLEE_POL0 + 2, CALLEE_SPEND, CALLEE_VER0, CALLEE_DEL1]) };
+        if a == CALLEE_SPEND && rng.chance(1, 2) { return Cx::Transfer(a, *rng.pick(&[0i128, 1, 10, 50, 100, 150])); }
+        Cx::Call(a, *rng.pick(&[9usize, 12, 16, 17, 18, 19, 20]))
+    }
     fn gen_ctx(&self, rng: &mut Rng) -> Cx {
+        if rng.chance(1, 7) { return self.gen_party_ctx(rng); }
         if rng.chance(1, 6) { return Cx::Transfer(1 + rng.below(2) as usize, *rng.pick(&[0i128, 1, 5, 10, 25, 50, 100, 150, -5])); }
         match rng.below(12) { 0..=1 => Cx::Call(0, *rng.pick(&[1usize, 5, 9])), 2..=4 => Cx::Call(1, *rng.pick(&[0usize, 9, 10])), 5..=6 => Cx::Call(2, *rng.pick(&[0usize, 9])), 7 => Cx::Call(3, 10),
                               8 => Cx::Create(0), 9 => Cx::Create(1), 10 => Cx::CreateCtor(0), _ => Cx::CreateCtor(1) }
@@ -1027,7 +1059,7 @@ impl<'a> Tr<'a> {
     fn ctx_of(&self, rng: &mut Rng, t: Ct) -> Cx {
         match t { Ct::Call(a) => Cx::Call(a, *rng.pick(&[0usize, 9, 10])), Ct::Create(w) => if rng.chance(1, 2) { Cx::Create(w) } else { Cx::CreateCtor(w) }, Ct::Default => Cx::Call(3, 9) }
     }
-    fn pick_type(&self, rng: &mut Rng) -> Ct { *rng.pick(&[Ct::Call(1), Ct::Call(2), Ct::Call(3), Ct::Create(0), Ct::Create(1)]) }
+    fn pick_type(&self, rng: &mut Rng) -> Ct { *rng.pick(&[Ct::Call(1), Ct::Call(2), Ct::Call(3), Ct::Create(0), Ct::Create(1), Ct::Call(CALLEE_POL0), Ct::Call(CALLEE_POL0 + 1)]) }
 
     /// several rules of one type and several Default rules, all satisfiable by the same signers, created in random
     /// order; after every change the same check is repeated, so that the rule that wins is visible in the enforce log
@@ -1454,7 +1486,7 @@ impl<'a> Tr<'a> {
             }
         }
         let uni = self.universe();
-        let ctxs = [Cx::Call(0, 5), Cx::Call(1, 0), Cx::Call(2, 9), Cx::Call(3, 10), Cx::Create(0), Cx::CreateCtor(1)];
+        let ctxs = [Cx::Call(0, 5), Cx::Call(1, 0), Cx::Call(2, 9), Cx::Call(3, 10), Cx::Create(0), Cx::CreateCtor(1), Cx::Call(CALLEE_POL0 + rng.below(3) as usize, 16)];
         for mask in 0..(1u32 << uni.len()) {
             let ss: std::vec::Vec<Sg> = uni.iter().enumerate().filter(|(i, _)| mask & (1 << i) != 0).map(|(_, s)| *s).collect();
             let mut a = self.exact(&ss);
@@ -1464,6 +1496,167 @@ impl<'a> Tr<'a> {
             }
             for c in ctxs.iter() { self.check_auth(&a, &[*c]); }
             if rng.chance(1, 8) { self.check_auth(&a, &[ctxs[1], ctxs[4], ctxs[3]]); }
+        }
+    }
+
+    /// ALIASED PARTIES, deterministic: the contract a context calls is itself a party of the check - one of the policy
+    /// contracts of the rule tried for it (mock, real threshold, real spending limit), the verifier of one of the rule's
+    /// signers, a delegated signer's address, the account.  The property makes no exception for such a callee: the
+    /// policy must still be asked (and enforced), the signature still verified.  Every situation is labelled when the
+    /// implementation behaves as the property says.
+    fn sc_party_situations(&mut self) {
+        self.nsig = 4; self.nkey = 3; self.npol = 4;
+        if !self.start() { return; }                                       // rule 0: Default [Delegated 0] - never supplied below
+        let (s1, s2, s3) = (Sg::Ext(0, 0), Sg::Del(1), Sg::Ext(1, 1));
+        let (none, a1, a2, a12, a3) = (self.exact(&[]), self.exact(&[s1]), self.exact(&[s2]), self.exact(&[s1, s2]), self.exact(&[s3]));
+        let md = |can: Pd, enf: Pd| Md { install: true, uninstall: true, can, enf };
+        let (p0, p1, p2) = (CALLEE_POL0, CALLEE_POL0 + 1, CALLEE_POL0 + 2);
+        // -- a CallContract(policy) rule that carries ONLY that policy and no signer: the policy alone decides calls of itself
+        let r1 = self.w.adds; self.add(Ct::Call(p0), None, &[], &[(0, 1)]);
+        self.set_mode(0, r1, &md(Pd::False, Pd::True));
+        let ok = self.check_auth(&none, &[Cx::Call(p0, 20)]); self.sit("callee-is-own-policy-typed-policy-only-rule-refused", !ok);
+        let ok = self.check_auth(&a12, &[Cx::Call(p0, 16)]); self.sit("callee-is-own-policy-signers-do-not-replace-the-policy", !ok);
+        self.set_mode(0, r1, &md(Pd::True, Pd::True));
+        let ok = self.check_auth(&none, &[Cx::Call(p0, 20)]); let e0 = self.enforced(0); self.sit("callee-is-own-policy-accepted-and-enforced", ok && e0);
+        let ok = self.check_auth(&none, &[Cx::Call(p0, 20), Cx::Call(p0, 17)]);
+        let n_enf = self.last_log.iter().filter(|l| l.starts_with("EEnforce 0%N")).count(); self.sit("callee-is-own-policy-batch-enforced-once-per-context", ok && n_enf == 2);
+        self.set_mode(0, r1, &md(Pd::True, Pd::False));
+        let ok = self.check_auth(&none, &[Cx::Call(p0, 20)]); self.sit("callee-is-own-policy-enforce-hook-refuses", !ok);
+        self.set_mode(0, r1, &md(Pd::Trap, Pd::True));
+        let ok = self.check_auth(&none, &[Cx::Call(p0, 20)]); self.sit("callee-is-own-policy-trapping-can-enforce-aborts", !ok);
+        self.set_mode(0, r1, &md(Pd::False, Pd::True));
+        // -- a Default rule with a signer and a policy; the context is a call of that policy contract
+        let r2 = self.w.adds; self.add(Ct::Default, None, &[s1], &[(1, 1)]);
+        self.set_mode(1, r2, &md(Pd::False, Pd::True));
+        let ok = self.check_auth(&a1, &[Cx::Call(p1, 9)]); self.sit("callee-is-own-policy-default-rule-refused", !ok);
+        // the policy answers by callee: everything but calls of itself
+        self.set_mode(1, r2, &md(Pd::NotCall(p1), Pd::True));
+        let ok1 = self.check_auth(&a1, &[Cx::Call(1, 9)]); let e1 = self.enforced(1);
+        let ok2 = self.check_auth(&a1, &[Cx::Call(p1, 9)]);
+        let ok3 = self.check_auth(&a1, &[Cx::Call(1, 9), Cx::Call(p1, 9)]);
+        self.sit("callee-is-own-policy-policy-refuses-exactly-the-calls-of-itself", ok1 && e1 && !ok2 && !ok3);
+        self.set_mode(1, r2, &md(Pd::Call(p1), Pd::True));
+        let ok1 = self.check_auth(&a1, &[Cx::Call(p1, 9)]); let e1 = self.enforced(1);
+        let ok2 = self.check_auth(&a1, &[Cx::Call(p2, 9)]);
+        self.sit("callee-is-own-policy-policy-accepts-exactly-the-calls-of-itself", ok1 && e1 && !ok2);
+        self.set_mode(1, r2, &md(Pd::False, Pd::True));
+        // -- the callee is ONE of two policies of the rule: both are asked, the callee's refusal passes the rule over
+        let r3 = self.w.adds; self.add(Ct::Call(p2), None, &[s2], &[(2, 1), (3, 1)]);
+        self.set_mode(2, r3, &md(Pd::False, Pd::True));
+        let ok = self.check_auth(&a2, &[Cx::Call(p2, 9)]); self.sit("callee-is-own-policy-one-of-two-policies-refuses", !ok);
+        self.set_mode(2, r3, &md(Pd::Min(1), Pd::True));
+        let ok = self.check_auth(&a2, &[Cx::Call(p2, 9)]); let (e2, e3) = (self.enforced(2), self.enforced(3));
+        self.sit("callee-is-own-policy-one-of-two-policies-both-enforced", ok && e2 && e3);
+        let ok = self.check_auth(&none, &[Cx::Call(p2, 9)]); self.sit("callee-is-own-policy-one-of-two-policies-signer-count-unmet", !ok);
+        // -- precedence is unaffected: a newer typed rule whose own policy (the callee) refuses is passed over, the older decides
+        let r4 = self.w.adds; self.add(Ct::Call(p2), None, &[s2, s3], &[(2, 2)]);
+        self.set_mode(2, r4, &md(Pd::False, Pd::True));
+        let a23 = self.exact(&[s2, s3]);
+        let ok = self.check_auth(&a23, &[Cx::Call(p2, 12)]); let e3 = self.enforced(3);
+        let only_r3 = self.last_log.iter().filter(|l| l.starts_with("EEnforce")).count() == 2;
+        self.sit("callee-is-own-policy-refusing-newest-passed-over", ok && e3 && only_r3);
+        // -- the REAL threshold policy as callee (direct __check_auth: the policy is not on the call stack)
+        self.add(Ct::Call(4), None, &[s1, s2], &[(REAL_THR, 2)]);
+        let ok = self.check_auth(&a1, &[Cx::Call(4, 12)]); self.sit("callee-is-own-policy-real-threshold-below-threshold-refused", !ok);
+        let ok = self.check_auth(&a12, &[Cx::Call(4, 12)]); let e = self.enforced(REAL_THR); self.sit("callee-is-own-policy-real-threshold-met", ok && e);
+        // -- the REAL spending-limit policy as the token being transferred
+        self.add(Ct::Call(CALLEE_SPEND), None, &[s3], &[(REAL_SPEND, 100 * 8 + 5)]);
+        let ok = self.check_auth(&a3, &[Cx::Transfer(CALLEE_SPEND, 150)]); self.sit("callee-is-own-policy-real-spending-limit-over-limit-refused", !ok);
+        let ok = self.check_auth(&a3, &[Cx::Transfer(CALLEE_SPEND, 60)]); let e = self.enforced(REAL_SPEND); self.sit("callee-is-own-policy-real-spending-limit-within-limit", ok && e);
+        let ok = self.check_auth(&a3, &[Cx::Transfer(CALLEE_SPEND, 60)]); self.sit("callee-is-own-policy-real-spending-limit-history-counts", !ok);
+        // -- the callee is the verifier contract of the rule's signer: the signature is still verified
+        let v1 = Sg::Ext(0, 2);
+        self.add(Ct::Call(CALLEE_VER0), None, &[v1], &[]);
+        let bad = Authz { sigs: std::vec![(v1, Cls::Bad(0))], auths: std::vec![] };
+        let ok = self.check_auth(&bad, &[Cx::Call(CALLEE_VER0, 18)]); self.sit("callee-is-own-verifier-bad-signature-refused", !ok);
+        let good = self.exact(&[v1]);
+        let ok = self.check_auth(&good, &[Cx::Call(CALLEE_VER0, 18)]); self.sit("callee-is-own-verifier-accepted", ok);
+        // -- the callee is the address of the rule's delegated signer: its authorisation is still required
+        let d1 = Sg::Del(1); let d2 = Sg::Del(2);
+        self.add(Ct::Call(CALLEE_DEL1), None, &[d1, d2], &[]);
+        let unauth = Authz { sigs: std::vec![(d1, Cls::Good), (d2, Cls::Good)], auths: std::vec![2] };
+        let ok = self.check_auth(&unauth, &[Cx::Call(CALLEE_DEL1, 19)]); self.sit("callee-is-own-delegated-signer-unauthorised-refused", !ok);
+        let both = self.exact(&[d1, d2]);
+        let ok = self.check_auth(&both, &[Cx::Call(CALLEE_DEL1, 19)]); self.sit("callee-is-own-delegated-signer-accepted", ok);
+        // -- the callee is the account itself, under a CallContract(account) rule with a refusing / accepting policy
+        let adm = self.adm();
+        let r9 = self.w.adds; self.add(Ct::Call(0), None, &[s3], &[(3, 4)]);
+        self.set_mode(3, r9, &md(Pd::False, Pd::True));
+        let before = self.w.rules();
+        let ok = self.admin(&a3, &Op::UpdName(r9, 2)); self.sit("callee-is-account-own-rule-policy-refuses", !ok && self.w.rules() == before);
+        self.set_mode(3, r9, &md(Pd::Call(0), Pd::True));
+        let ok = self.admin(&a3, &Op::UpdName(r9, 2)); let e = self.enforced(3); self.sit("callee-is-account-own-rule-policy-accepts", ok && e);
+        let _ = adm;
+    }
+
+    /// ALIASED PARTIES, randomised: a rule whose policies include policy p, tried for calls of p's own contract (and of
+    /// other contracts), under Default and CallContract(p) types, with and without signers, next to a competing rule
+    /// without the policy; the answer of p toggled through every predicate, p removed and added back
+    fn sc_party_alias(&mut self, rng: &mut Rng) {
+        if !self.start() { return; }
+        let (s1, s2, s3) = (Sg::Ext(0, 1), Sg::Del(1), Sg::Ext(1, 0));
+        let p = *rng.pick(&[0usize, 1, 2, 0, 1, REAL_THR, REAL_SPEND]);
+        let ca = policy_callee(p).unwrap();
+        let ty = if rng.chance(1, 3) { Ct::Default } else { Ct::Call(ca) };
+        let ss: std::vec::Vec<Sg> = match rng.below(4) { 0 => std::vec![], 1 => std::vec![s1], 2 => std::vec![s2], _ => std::vec![s1, s2] };
+        let ss = if ss.is_empty() && p >= REAL_THR { std::vec![s1] } else { ss };
+        let k = if p == REAL_THR { 1 + rng.below(ss.len() as u64) as u32 } else if p == REAL_SPEND { 100 * 8 + 4 } else { 1 };
+        let mut ps: std::vec::Vec<(usize, u32)> = std::vec![(p, k)];
+        if rng.chance(1, 2) { let q = 3; if rng.chance(1, 2) { ps.push((q, 2)); } else { ps.insert(0, (q, 2)); } }
+        // an older competitor of the same type without the policy, for other signers
+        let older = rng.chance(1, 2);
+        if older { self.add(ty, None, &[s3], &[]); }
+        let id = self.w.adds;
+        self.add(ty, None, &ss, &ps);
+        let fns = [9usize, 12, 16, 17, 19, 20];
+        let own = |rng: &mut Rng| if p == REAL_SPEND && rng.chance(2, 3) { Cx::Transfer(ca, *rng.pick(&[1i128, 40, 60, 100, 101])) } else { Cx::Call(ca, *rng.pick(&fns)) };
+        let auths: std::vec::Vec<Authz> = std::vec![self.exact(&ss), self.exact(&[]), self.exact(&ss[..ss.len().saturating_sub(1)]), self.exact(&[s1, s2, s3]), self.exact(&[s3])];
+        let rounds = 4 + rng.below(3);
+        for round in 0..rounds {
+            if p < REAL_THR {
+                let can = match round { 0 => Pd::False, 1 => Pd::True, _ => match rng.below(6) { 0 => Pd::Call(ca), 1 => Pd::NotCall(ca), 2 => Pd::Min(rng.below(3) as u32), 3 => Pd::Trap, 4 => Pd::Has(s2), _ => Pd::False } };
+                let enf = if rng.chance(1, 5) { *rng.pick(&[0usize, 1]) } else { 2 };
+                let enf = match enf { 0 => Pd::False, 1 => Pd::NotCall(ca), _ => Pd::True };
+                self.set_mode(p, id, &Md { install: true, uninstall: true, can, enf });
+            }
+            let a = rng.pick(&auths).clone();
+            let c = own(rng);
+            self.check_auth(&a, &[c]);
+            let a = if rng.chance(1, 2) { auths[0].clone() } else { rng.pick(&auths).clone() };
+            match rng.below(4) {
+                0 => { let c2 = own(rng); self.check_auth(&a, &[c, c2]); }
+                1 => { self.check_auth(&a, &[Cx::Call(1, 9), c]); }
+                2 => { let c2 = self.gen_ctx(rng); self.check_auth(&a, &[c2]); }
+                _ => { self.check_auth(&a, &[c]); }
+            }
+        }
+        // without the policy the rule is an ordinary signer rule (or cannot exist); with it back, it is asked again
+        let adm = self.adm();
+        self.admin(&adm, &Op::RemovePolicy(id, p));
+        let c = own(rng);
+        self.check_auth(&auths[0], &[c]); self.check_auth(&auths[1], &[c]);
+        self.admin(&adm, &Op::AddPolicy(id, p, k));
+        if p < REAL_THR { self.set_mode(p, id, &Md { install: true, uninstall: true, can: Pd::False, enf: Pd::True }); }
+        self.check_auth(&auths[0], &[c]); self.check_auth(&auths[3], &[c]);
+        if rng.chance(1, 2) { self.admin(&adm, &Op::RemoveRule(id)); self.check_auth(&auths[3], &[c]); }
+        // the callee is the verifier contract of a rule signer / the address of a delegated rule signer: the signature
+        // is still verified, the delegated signer's own authorisation still required
+        let vs = Sg::Ext(0, rng.below(3) as usize);
+        let d1 = Sg::Del(1);
+        if rng.chance(1, 2) { self.add(Ct::Default, None, &[vs, d1], &[]); }
+        else { self.add(Ct::Call(CALLEE_VER0), None, &[vs, d1], &[]); self.add(Ct::Call(CALLEE_DEL1), None, &[vs, d1], &[]); }
+        let cv = Cx::Call(CALLEE_VER0, *rng.pick(&[18usize, 9, 16]));
+        let cd = Cx::Call(CALLEE_DEL1, *rng.pick(&[19usize, 9, 0]));
+        let mut cases: std::vec::Vec<Authz> = std::vec![
+            Authz { sigs: std::vec![(vs, Cls::Good), (d1, Cls::Good)], auths: std::vec![1] },
+            Authz { sigs: std::vec![(vs, Cls::Bad(rng.below(4) as u8)), (d1, Cls::Good)], auths: std::vec![1] },
+            Authz { sigs: std::vec![(vs, Cls::Good), (d1, Cls::Good)], auths: std::vec![] },
+            Authz { sigs: std::vec![(vs, Cls::Trap), (d1, Cls::Good)], auths: std::vec![1] },
+            Authz { sigs: std::vec![(vs, Cls::Good)], auths: std::vec![1] },
+        ];
+        for i in (1..cases.len()).rev() { let j = rng.below(i as u64 + 1) as usize; cases.swap(i, j); }
+        for a in cases.iter().take(4) {
+            match rng.below(3) { 0 => { self.check_auth(a, &[cv]); } 1 => { self.check_auth(a, &[cd]); } _ => { self.check_auth(a, &[cd, cv]); } }
         }
     }
 
@@ -1542,6 +1735,23 @@ fn main() {
         let mut t = Tr { w: World::new(k % 2), items: std::vec![], out: &mut out, nsig: 4, nkey: 3, npol: 4, last_log: std::vec![], salt: 0 };
         t.sc_situations();
         t.finish("situations");
+        tidx += 1;
+    }
+    // ---- aliased parties: the called contract is itself a policy / verifier / signer of the rule (deterministic
+    //      situations under both host configurations, then the randomised family) ----
+    for k in 0..(if thorough { 6 } else { 2 }) {
+        if !out.wants(tidx) { tidx += 1; continue; }
+        let mut t = Tr { w: World::new(k % 2), items: std::vec![], out: &mut out, nsig: 4, nkey: 3, npol: 4, last_log: std::vec![], salt: 0 };
+        t.sc_party_situations();
+        t.finish("callee-is-a-party-situations");
+        tidx += 1;
+    }
+    for _ in 0..(if thorough { 80 } else { 8 } * scale) {
+        let mut r = rng.fork(7500 + tidx as u64);
+        if !out.wants(tidx) { tidx += 1; continue; }
+        let mut t = Tr { w: World::new(tidx % 2), items: std::vec![], out: &mut out, nsig: 4, nkey: 3, npol: 4, last_log: std::vec![], salt: 0 };
+        t.sc_party_alias(&mut r);
+        t.finish("callee-is-a-party");
         tidx += 1;
     }
     // ---- persistence across long ledger gaps (both host configurations for every gap) ----
